@@ -32,7 +32,7 @@ MIN_EVENTS = {"quick": {"evaluations": 4000, "functions_walked": 5000, "error_pa
 
 
 def n_cases(tier):
-    return 2400 if tier == "quick" else 60000
+    return 5000 if tier == "quick" else 100000
 
 
 def worker_setup(tier, rec):
@@ -79,9 +79,11 @@ def walk_new_functions(rec, st, context):
         rec.count("functions_walked")
         bad = unresolved_globals(fn)
         if bad:
-            src = None
-            rec.violation("closure:unresolved-global:" + ",".join(sorted(set(bad)))[:80],
-                          dict(context, function=fn.__name__, unresolved=sorted(set(bad))), {"monitor": "closure", "names": sorted(set(bad))})
+            import re
+            names = sorted({re.sub(r"c17\w*_\d+", "<family-module>", b) for b in bad})
+            rec.violation("closure:unresolved-global:" + (context.get("kind") or "schema") + ":" + ",".join(names)[:80],
+                          dict(context, function=re.sub(r"_[0-9a-f]{32}", "", fn.__name__), unresolved=names),
+                          {"monitor": "closure", "names": names, "kind": context.get("kind")})
 
 
 def schema_case(rng, tier, rec, st):
@@ -91,7 +93,25 @@ def schema_case(rng, tier, rec, st):
     try:
         local = rng.random() < 0.3
         tg = TypeGen(fam, rng, dc_config_fn=config_fn, mixins=("DataClassDictMixin", "DataClassORJSONMixin", "DataClassMessagePackMixin"))
-        t = tg.dataclass(rng.randint(0, 2), nfields=rng.randint(1, 4))
+        if rng.random() < 0.3:
+            # fields whose (de)serialization is overridden: the type is then only mentioned in error-reporting
+            # expressions, so its module must still be reachable from the generated namespace
+            elem = rng.choice(["decimal.Decimal", "fractions.Fraction", "ipaddress.IPv4Address", "uuid.UUID", "pathlib.PurePosixPath",
+                               "zoneinfo.ZoneInfo", "datetime.timedelta", "re.Pattern", "collections.OrderedDict[str, int]", "types.MappingProxyType[str, int]"])
+            cont = rng.choice(["list[{}]", "dict[str, {}]", "tuple[{}, ...]", "List[{}]", "set[{}]", "types.MappingProxyType[str, {}]", "{}", "Optional[{}]"]).format(elem)
+            how = rng.choice(["serialize=pass_through, deserialize=pass_through", "serialization_strategy=pass_through",
+                              "deserialize=lambda v: v", "serialize=lambda v: v", "serialization_strategy={'deserialize': (lambda v: v)}"])
+            dflt = rng.choice(["", "default=None, "])
+            name = tg.fresh("OV")
+            fam.exec_src(f"@dataclass\nclass {name}(DataClassDictMixin):\n    first: int\n    x: {cont} = field({dflt}metadata=field_options({how}))\n"
+                         + ("    class Config(BaseConfig):\n        forbid_extra_keys = True\n" if rng.random() < 0.3 else ""))
+            fam.defs[name] = {"k": "dc", "name": name, "bases": [], "mixin": "DataClassDictMixin",
+                              "fields": [{"n": "first", "t": ("int",)}, {"n": "x", "t": ("any",), **({"dmode": "default", "dseed": 0} if dflt else {})}]}
+            if dflt:
+                fam.values[(name, "x")] = None
+            t = ("dc", name)
+        else:
+            t = tg.dataclass(rng.randint(0, 2), nfields=rng.randint(1, 4))
         name = t[1]
         cls = fam.get(name)
         ctx = {"family": fam.to_json()}
